@@ -63,11 +63,12 @@ JOBS += [
         ('c12_delta_flush_block_spec_size', ['CQV_SPEC_SIZE=1'], ['C12']),        # packed_bytes_needed == sum 32*w/8 (Encodings.md)
     ]
 ] + [
+    dict(name='c11_delta_encoder_init', entry='h_encoder_init', enforce='delta_encoder_init', loop_contracts=False,
+         defines=['CQV_MEMSET_EXACT=1088'], unwindset=['memset.0:1089'], **D11),
     dict(name='c11_delta_encode_int32', entry='h_encode_int32', enforce='carquet_delta_encode_int32',
-         replace=['write_uleb128', 'delta_encoder_flush_block'], min_loop_obligations=1,
-         defines=['CQV_MEMSET_EXACT=1080'], **D11),
+         replace=['write_uleb128', 'delta_encoder_init', 'delta_encoder_flush_block'], min_loop_obligations=1, **D11),
     dict(name='c11_delta_encode_int64', entry='h_encode_int64', enforce='carquet_delta_encode_int64',
-         replace=['write_uleb128', 'delta_encoder_flush_block'], min_loop_obligations=1, **D11),
+         replace=['write_uleb128', 'delta_encoder_init', 'delta_encoder_flush_block'], min_loop_obligations=1, **D11),
 ]
 
 for _j in JOBS:
@@ -93,5 +94,5 @@ for _j in JOBS:
     _j['wip'] = _j['name'] not in DONE
     if _j['name'] in NOTES:
         _j['note'] = NOTES[_j['name']]
-    if _j['name'].startswith('c11_delta_flush') or _j['name'].startswith('c12_delta_flush') or _j['name'].startswith('c11_delta_encode'):
+    if _j['name'].startswith('c11_delta_flush') or _j['name'].startswith('c12_delta_flush') or _j['name'].startswith('c11_delta_encode_'):
         _j['tier'] = 'thorough'
